@@ -88,12 +88,33 @@ fn perm(n: usize) -> Vec<usize> {
     }
 }
 
+/// 0 = left fold, 1 = right fold, 2 = balanced
+fn shaped<T>(mut items: Vec<T>, op: &impl Fn(T, T) -> T, shape: usize) -> T {
+    if items.len() == 1 {
+        return items.pop().unwrap();
+    }
+    let split = match shape {
+        0 => items.len() - 1,
+        1 => 1,
+        _ => items.len() / 2,
+    };
+    let right = items.split_off(split);
+    let l = shaped(items, op, shape);
+    let r = shaped(right, op, shape);
+    op(l, r)
+}
+
 fn tree<T>(mut items: Vec<T>, op: &impl Fn(T, T) -> T) -> Option<T> {
     if items.is_empty() {
         return None;
     }
     if items.len() == 1 {
         return items.pop();
+    }
+    if model::mode() == Mode::Explore && items.len() > 4 {
+        // more than 4 items: three representative trees (left fold, right fold, balanced) instead of every tree (stated bound)
+        let shape = symrt::choice(3);
+        return Some(shaped(items, op, shape));
     }
     let split = match model::mode() {
         Mode::Sequential => items.len() - 1,
